@@ -99,10 +99,11 @@ theorem rootStable_spec (fg : Factory.Graph) (h : rootStable fg = true) (x : Nat
   simp only [rootStable, List.all_eq_true, List.mem_range, beq_iff_eq] at h
   exact h x hx
 
-theorem castsPlain_spec (g : Compile.Graph) (h : castsPlain g = true) (j x : Nat) (out : E) (ha : g.apps[j]? = some (App.cast (.var x) out)) :
-    ∃ y, out = .var y := by
+theorem castsPlain_spec (g : Compile.Graph) (fg : Factory.Graph) (t : Nat) (h : castsPlain g fg t = true) (j x : Nat) (out : E)
+    (ha : g.apps[j]? = some (App.cast (.var x) out)) (hrx : root fg x = t) : ∃ y, out = .var y := by
   simp only [castsPlain, List.all_eq_true] at h
   have := h _ (List.mem_of_getElem? ha)
+  simp only [hrx, bne_self_eq_false, Bool.false_or] at this
   cases out with
   | var y => exact ⟨y, rfl⟩
   | _ => simp at this
@@ -112,7 +113,7 @@ as its only consumer (`classUsers fg t = [i]`, part of `factoryOK`), the only tr
 casts of `t`. -/
 theorem track_input (g : Compile.Graph) (aux : List TAux) (fg : Factory.Graph) (hwf : g.WF = true) (hsup : Supported g = true)
     (hfg : toFactory g aux = some fg) (hfwf : Factory.wf fg = true) (hstable : rootStable fg = true)
-    (hplain : castsPlain g = true) (t : Nat) (ht : t ∈ fg.inputs) (i : Nat) (hcu : classUsers fg t = [i])
+    (t : Nat) (hplain : castsPlain g fg t = true) (ht : t ∈ fg.inputs) (i : Nat) (hcu : classUsers fg t = [i])
     (fn : V) (args : List V) (kwargs : List (String × V)) (deps : List V) (out : V)
     (hnode : fg.apps[i]? = some ⟨.call fn args kwargs deps, out⟩) :
     Track g (isInAtom t) (fun y => root fg y = t) (fun k' => g.top = .gref k') := by
@@ -162,7 +163,7 @@ theorem track_input (g : Compile.Graph) (aux : List TAux) (fg : Factory.Graph) (
     | cast input out =>
       simp only [aliasOperand, Option.some.injEq] at hal
       subst hal
-      obtain ⟨y, rfl⟩ := castsPlain_spec g hplain j x out hj
+      obtain ⟨y, rfl⟩ := castsPlain_spec g fg t hplain j x out hj hrx
       refine ⟨y, rfl, ?_⟩
       obtain ⟨ti, h1, h2⟩ := wf_out hfwf j _ hfa y (by simp [toGApp, App.out, refs_var])
       have hcs : castSource fg y = some x := by
